@@ -5,20 +5,23 @@ import numpy as np
 import datagen as dg
 import props.c01 as c01
 import props.c08 as c08
+from props import mdelete
 from common import xr, xvec, from_xr, from_xvec, tokens_close, num_close
 
 ID = "C04"
-TARGETS = ["Proofs.C04"]
+TARGETS = ["Proofs.C04", mdelete.TARGET]
 GEN_PREFIXES = ["clean."]
 THEOREMS = {"Proofs.C04": ["VerifModel.C04." + t for t in [
     "cleanCond_eq", "textClean_eq", "C04_clean", "C04_textclean", "C04_textclean_keeps", "C04_text_nc_agree", "isValid_iff", "compress_mem",
     "C04_outputs_valid", "C04_all_masked", "C04_nonfinite_clim", "C04_pairwise", "C04_all_missing_nan",
-    "validMask_insertRow", "compress_insertAt", "C04_delete_invariance", "C04_delete_invariance_many"]]}
+    "validMask_insertRow", "compress_insertAt", "C04_delete_invariance", "C04_delete_invariance_many"]],
+    mdelete.TARGET: list(mdelete.THEOREMS)}
 TRUSTED_BASE = c01.TRUSTED_BASE + [
     "harness/translate.py for the mask expression of util.clean and the body of Text._clean (re-proved equal to the "
     "model each run); the surrounding statements of util.clean are pattern-checked, not translated",
     "CPython's float(): the harness classifies each text token as a number or a ValueError with float() itself",
     "numpy.ma / netCDF4 masked-array semantics (np.ma.filled)",
+    mdelete.TRUSTED,
 ]
 ASSUMPTIONS = c01.ASSUMPTIONS
 RULE = ("ens.missing: C08's ensemble/cdf/quantile ops that carry a missing member or value (threshold probability and quantile derived from an ensemble with missing members, stored columns with missing cells); clean.nc: vectors over {masked, nan, -999, -999.5, 0, 1e30, nextafter(1e30), 1e31, inf, -inf, -1e31}; clean.text: "
@@ -27,13 +30,13 @@ RULE = ("ens.missing: C08's ensemble/cdf/quantile ops that carry a missing membe
         "with 30-70% missing cells, all-missing slices and inputs, in every field kind (obs, fcst, PIT, stored CDF / "
         "quantile columns, ensemble members, other scores: a missing value in ANY input removes the case for all, "
         "datagen.gen_dataset, see C01; a fifth with -obs / -fcst FIELD); data.missing.text: the same through text files "
-        "with every missing token in every column kind")
+        "with every missing token in every column kind; " + mdelete.RULE)
 EXHAUSTIVE = {"quick": False, "thorough": False}
 LEVEL_TEXT = ("Lean theorems: util.clean maps exactly {masked, NaN, -999, > 1e30} to NaN and keeps everything else; "
               "Text._clean maps exactly {unparseable, -999, NaN} to NaN (both cleaners machine-translated and re-proved "
               "each run); every value get_scores hands on is a finite number or the single-NaN placeholder; a missing "
               "climatology value or a zero divisor invalidates the case; every obs/fcst metric drops a pair with a missing "
-              "member and returns NaN for no pairs. Dataset-level deletion invariance: C04_delete_invariance(_many) — inserting any number of cases with a missing value in some requested column leaves what get_scores hands on unchanged (every non-All axis); also decided on the implementation by the coordinate oracle.")
+              "member and returns NaN for no pairs. Dataset-level deletion invariance: C04_delete_invariance(_many) — inserting any number of cases with a missing value in some requested column leaves what get_scores hands on unchanged (every non-All axis); also decided on the implementation by the coordinate oracle." + mdelete.LEVEL_TEXT)
 TECHNIQUE = "Lean 4 proof (cleaners regenerated from source each run) + differential correspondence + metamorphic oracle"
 NC = ["m", "nan", "-999", "-1999/2", "0", "5/2", xr(1e30), xr(np.nextafter(1e30, 2e30)), xr(1e31), "inf", "-inf", xr(-1e31)]
 TOKENS = ["-999", "-999.0", "-9.99e2", "NA", ".", "nan", "NaN", "inf", "-inf", "abc", "1e3", "1_0", "+5", "0.5", "-999.5", "1e31", "1e30", "9.96921e+36", "-1e31"]
@@ -89,6 +92,9 @@ def gen_ops(tier, rng):
             ds2 = dg.DS(ds.inputs, {})
             if all("fcst" in I["fields"] for I in ds2.inputs):
                 yield "data.missing.text", dg.enc_op(ds2, reqs[:8], head="datatxt %d" % rng.randrange(10 ** 6))
+    import random as _random2
+    for x in mdelete.gen_ops(tier, _random2.Random(rng.randrange(10 ** 9))):
+        yield x
 
 
 def _metric(name, obs, fcst):
@@ -108,6 +114,8 @@ C08_HEADS = ("ensthr", "ensq", "pd", "thrf", "qntf")
 
 
 def spec_op(op):
+    if op.startswith(mdelete.PREFIX):
+        return mdelete.spec_op(op)
     if op.split(" ")[0] in C08_HEADS:
         return c08.spec_op(op)
     return None
@@ -115,6 +123,8 @@ def spec_op(op):
 
 def impl(op):
     a = op.split(" ")
+    if op.startswith(mdelete.PREFIX):
+        return mdelete.impl(op)
     if a[0] in C08_HEADS:
         return c08.impl(op)
     if a[0] == "ncclean":
@@ -147,6 +157,8 @@ def impl(op):
 def lean_op(op):
     """the model works on tokens already classified by CPython's float() (number or ValueError)"""
     a = op.split(" ")
+    if op.startswith(mdelete.PREFIX):
+        return mdelete.lean_op(op)
     if a[0] == "textclean":
         out = []
         for t in a[1].split(","):
@@ -163,6 +175,8 @@ def lean_op(op):
 
 
 def cmp(op, impl_out, model_out):
+    if op.startswith(mdelete.PREFIX):
+        return mdelete.cmp(op, impl_out, model_out)
     if op.split(" ")[0] in C08_HEADS:
         return c08.cmp(op, impl_out, model_out)
     if op.startswith("mdelete"):
@@ -172,6 +186,8 @@ def cmp(op, impl_out, model_out):
 
 def judge(op, impl_out, spec_out):
     a = op.split(" ")
+    if op.startswith(mdelete.PREFIX):
+        return mdelete.judge(op, impl_out, spec_out)
     if a[0] in C08_HEADS:
         return c08.judge(op, impl_out, spec_out)
     if impl_out.startswith("EXC:"):
@@ -203,7 +219,13 @@ def judge(op, impl_out, spec_out):
     return c01.judge(op, impl_out, spec_out)
 
 
+def shrink(op):
+    return mdelete.shrink(op) if op.startswith(mdelete.PREFIX) else iter(())
+
+
 def nontrivial(op, out):
+    if op.startswith(mdelete.PREFIX):
+        return mdelete.nontrivial(op, out)
     if op.startswith("data"):
         return c01.nontrivial(op, out)
     return True
